@@ -305,6 +305,7 @@ type c08LayoutOpt struct {
 	longLast  bool // put the long line last and leave out the final newline
 	finalNL   bool
 	plainOnly bool // canonical: no pads at all
+	inlineCmt bool // in-line comments behind the last physical line of definitions (outside the theorem's family)
 }
 
 var c08BlankAlphabet = []string{" ", " ", " ", " ", "\t", "\t", "\v", "\f", "\r"}
@@ -411,6 +412,21 @@ func (g *c08Gen) layout(doc c08Doc, o c08LayoutOpt) *c08LDoc {
 	if !o.longLast {
 		ld.Tail = g.gap(&o)
 	}
+	if o.inlineCmt {
+		// "key = value   ; remark": the reader cuts a definition line at the first '#' or ';'
+		for si := range ld.Secs {
+			for di := range ld.Secs[si].Defs {
+				if g.c.Rng.Intn(2) == 0 {
+					d := &ld.Secs[si].Defs[di]
+					txt := g.commentText()
+					if t := c08Trim(txt); strings.HasSuffix(t, "\\") || strings.HasSuffix(t, "]") {
+						txt += "."
+					}
+					d.Trail += g.blanks(3) + g.pick([]string{"#", ";"}) + txt
+				}
+			}
+		}
+	}
 	if o.crlf {
 		// every physical line ends "\r\n": the "\r" is the end of the line's last blank slot
 		for si := range ld.Secs {
@@ -501,6 +517,7 @@ func (g *c08Gen) randomOpt(i int) c08LayoutOpt {
 		o.pads = []int{0, 2, 6, 40}[r.Intn(4)]
 		o.shuffle = r.Intn(2) == 0
 		o.finalNL = r.Intn(3) != 0
+		o.inlineCmt = r.Intn(5) == 0
 		if r.Intn(g.longEvery) == 0 {
 			o.long = c08LongTargets[r.Intn(len(c08LongTargets))]
 			o.longLast = r.Intn(4) == 0
@@ -855,7 +872,8 @@ func (g *c08Gen) matcher() string {
 }
 
 func (g *c08Gen) roleDef() string {
-	return g.pick([]string{"_, _", "_,_", "_, _, _", "_, _, (_, _)", "_,_,_,(_,_)", "_, _, ()", "_, (_), _", "_ , _ , (x", "(_, _), _", "_"})
+	return g.pick([]string{"_, _", "_,_", "_, _, _", "_, _, (_, _)", "_,_,_,(_,_)", "_, _, ()", "_, (_), _", "_ , _ , (x", "(_, _), _", "_",
+		"_, _, (_, _), (_)", "(_), _, (_, _)", "_, ((_, _), _)", "_, _) , (_, _"})
 }
 
 func (g *c08Gen) suffix(i int) string {
@@ -963,7 +981,7 @@ var c08HostileLines = []string{
 	"[request_definition]", "[policy_definition]", "[role_definition]", "[policy_effect]", "[matchers]", "[]", "[", "]", "[x] # c", "[a]]", "[[b]",
 	"r = sub, obj, act", "r2 = a", "r3 = b", "p = sub, obj, act", "p2= x,y", "g = _, _", "g2 = _, _, (_, _)", "e = some(where (p.eft == allow))",
 	"m = r.sub == p.sub", "m = g(r.sub, p.sub) && \\", "  r.obj == p.obj \\", " && r.act in [a, b]", "[p.obj]", "m2 = eval(p.x)", "= v", "k =", "k", "\\", " \\ ",
-	"# c", "; c", "# c \\", "", "   ", "\t", "m = a # b \\", "m = a ; b", "m == b", "r = ", "e = x\\", "g = (", "g = )(", "g = _,(_,_,_,_)", "g = (,,,)",
+	"# c", "; c", "# c \\", "", "   ", "\t", "m = a # b \\", "m = a ; b", "m == b", "r = ", "e = x\\", "g = (", "g = )(", "g = _,(_,_,_,_)", "g = (,,,)", "g = _, (_), (_, _)", "g = ((_,_),_)",
 	"r = a,,b,", "p = ,", "m = in", "m = r.[x] in y", "m = domain[1]", "\r", "a=b\r", "\r[matchers]\r", "m = x\xc2", "\xa0", "[request_definition]\r", "r = sub, obj\r",
 }
 
@@ -1044,7 +1062,7 @@ const c08Examples = "/repo/examples"
 func init() {
 	register("C08", func(c *Ctx) {
 		g := &c08Gen{c, 3}
-		nExact, nLoose, nGen, nHostile := 32, 6, 30, 2500
+		nExact, nLoose, nGen, nHostile := 32, 6, 50, 5000
 		if c.Thorough() {
 			nExact, nLoose, nGen, nHostile = 300, 40, 120, 40000
 			g.longEvery = 8
@@ -1052,7 +1070,7 @@ func init() {
 		c.Rule = fmt.Sprintf("documents = every %s/**/*.conf (read at run time, turned into sections/keys/values by a small reference reader) + %d generated documents "+
 			"(standard and foreign sections, r/p/g/e/m values from a token grammar incl. '=' '[' ']' '\\' quotes, numbering gaps, duplicate keys, empty values, duplicate sections); "+
 			"each rendered under %d layouts of the theorem's family (indentation, blanks round '=', trailing blanks incl. \\t \\v \\f \\r, blank/';'/'#' lines between definitions, "+
-			"backslash continuation at random subsets of the single blanks up to every one, CRLF, section order, with/without final newline; layouts 1-4 and 7 and one in "+fmt.Sprint(g.longEvery)+" of the others pad one "+
+			"backslash continuation at random subsets of the single blanks up to every one, CRLF, section order, with/without final newline; one random layout in five also puts in-line ';'/'#' remarks behind definitions (text-only cases); layouts 1-4 and 7 and one in "+fmt.Sprint(g.longEvery)+" of the others pad one "+
 			"physical line to exactly 4096 / just over 4096 / over 8192 bytes, also as last line without terminator) and %d loose layouts (blank runs inside r/p/g/m values stretched, also past 4096 bytes, "+
 			"blanks inserted at commas and && ||); plus %d hostile texts (random bytes, line soups, mutated examples). Every text goes through the real NewConfigFromText / NewModelFromString and through the extracted Coq model; "+
 			"non-trivial = a layout case that differs from the plain rendering (id counted once)", c08Examples, nGen, nExact, nLoose, nHostile)
@@ -1125,10 +1143,16 @@ func init() {
 			baseDec := ""
 			run := func(id string, ld *c08LDoc, loose bool, o c08LayoutOpt) {
 				text := c08Render(ld)
-				c.Case(id, "L "+Q(text)+" "+psx+" "+c08LDocSx(ld))
-				c.Obs(id, "wf", "1")
-				c.Obs(id, "render", "same")
-				c.Obs(id, "theorem", "1")
+				if o.inlineCmt {
+					// not a layout of the theorem's family (the trailing slot is not blank): text only
+					c.Case(id, "T "+Q(text)+" "+psx)
+					c.Count("with-inline-comments")
+				} else {
+					c.Case(id, "L "+Q(text)+" "+psx+" "+c08LDocSx(ld))
+					c.Obs(id, "wf", "1")
+					c.Obs(id, "render", "same")
+					c.Obs(id, "theorem", "1")
+				}
 				res, _ := c08Observe(c, id, text, probes, true)
 				ml := c08MaxLine(text)
 				switch {
@@ -1234,10 +1258,13 @@ func c08Probe(c *Ctx) {
 	}
 	// F34: examples/rbac_model_matcher_using_in_op_bracket.conf with its matcher continued in front of the list
 	v, ok := value(base + "m = g(r.sub, p.sub) && r.obj == p.obj && r.act == p.act || r.obj in \\\n  ['data2', 'data3']\n")
-	if ok && v != full {
+	switch {
+	case ok && v != full:
 		c.Known = append(c.Known, "F34\treproduced\tcontinuation line ['data2', 'data3'] taken for a section header: m.Value = "+Q(v))
-	} else {
+	case ok:
 		c.Known = append(c.Known, "F34\tgone\tm.Value = "+Q(v))
+	default:
+		c.Known = append(c.Known, "F34\tinconclusive\tthe witness model does not load at all")
 	}
 	// W1 (observation outside the property's layouts): blanks inside the marker change decisions
 	if data, err := os.ReadFile(c08Examples + "/keymatch_with_rbac_in_domain.conf"); err == nil && strings.Contains(string(data), c08Marker) {
